@@ -5,6 +5,7 @@ from typing import Any, Dict, Literal, Optional, Union
 from pydantic import Field, validate_call
 
 from primaite.simulator.network.airspace import AirSpace, AirSpaceFrequency, FREQ_WIFI_2_4, IPWirelessNetworkInterface
+from primaite.simulator.network.hardware.base import NetworkInterface
 from primaite.simulator.network.hardware.node_operating_state import NodeOperatingState
 from primaite.simulator.network.hardware.nodes.network.router import ACLAction, Router, RouterInterface
 from primaite.simulator.network.transmission.data_link_layer import Frame
@@ -75,6 +76,7 @@ class WirelessAccessPoint(IPWirelessNetworkInterface):
             self.pcap.capture_inbound(frame)
             # If this destination or is broadcast
             if frame.ethernet.dst_mac_addr == self.mac_address or frame.ethernet.dst_mac_addr == "ff:ff:ff:ff:ff:ff":
+                NetworkInterface.receive_frame(self, frame)  # NMNE / traffic capture of the base interface
                 self._connected_node.receive_frame(frame=frame, from_network_interface=self)
                 return True
         return False
